@@ -50,7 +50,13 @@ type rollCfg struct {
 	openOnly bool            // only file creations may fail
 	lands    []time.Duration // where in the next interval a clock tick may land (default: 1ms after the boundary)
 	interval time.Duration   // rotation interval (default: one hour)
+	skew     time.Duration   // != 0: writes are Append calls of events stamped clock+skew (the appender's clock is the wall clock, not the event)
 }
+
+// idLayout formats an event as its tag (which carries the write's id) plus a line break.
+type idLayout struct{}
+
+func (idLayout) ToBytes(e *log.Event) []byte { return []byte(e.Tag + "\n") }
 
 func (c rollCfg) iv() time.Duration {
 	if c.interval > 0 {
@@ -88,6 +94,9 @@ func (c rollCfg) name() string {
 	if c.interval > 0 {
 		s += "/every-" + c.interval.String()
 	}
+	if c.skew != 0 {
+		s += fmt.Sprintf("/append-event-time%+v", c.skew)
+	}
 	return s
 }
 
@@ -102,6 +111,9 @@ func (c rollCfg) run(o *rollObs) {
 		x.FS.FaultOps = map[string]bool{"open": true}
 	}
 	a := &log.RollingFileAppender{FileDir: rollDir, FileName: rollName, Rotation: log.TimeRotation{Interval: c.iv()}, MaxAge: c.maxAge}
+	if c.skew != 0 {
+		a.Layout = idLayout{}
+	}
 	zzvrt.Atomic(func() {
 		x.FS.MkdirAll(rollDir)
 		if c.preExist {
@@ -121,7 +133,11 @@ func (c rollCfg) run(o *rollObs) {
 			for k, id := range ids {
 				w := &rollWrite{id: id, startAt: x.Now, startStep: x.Steps, ticksAtBeg: ticksUsed(x), tid: zzvrt.ThreadID()}
 				o.writes = append(o.writes, w)
-				a.Write([]byte(id + "\n"))
+				if c.skew != 0 {
+					a.Append(&log.Event{Level: log.InfoLevel, Time: x.Now.Add(c.skew), Tag: id})
+				} else {
+					a.Write([]byte(id + "\n"))
+				}
 				w.endAt, w.endStep, w.returned, w.ticksAtEnd = x.Now, x.Steps, true, ticksUsed(x)
 				if c.restart && k == 0 {
 					a.Stop()
@@ -451,6 +467,12 @@ func init() {
 	reg("C13", rollCfg{writers: [][]string{{"a0", "a1", "a2"}}, lands: positions, variant: "tick-positions"}, "qt", bb{1, 3, 0}, bb{2, 3, 0})
 	reg("C13", rollCfg{writers: [][]string{{"a0", "a1"}, {"b0", "b1"}}, lands: positions, variant: "tick-positions"}, "qt", bb{1, 2, 0}, bb{2, 3, 0})
 	reg("C13", rollCfg{writers: [][]string{{"a0", "a1"}}, restart: true, lands: positions, variant: "tick-positions"}, "qt", bb{1, 2, 0}, bb{2, 3, 0})
+	// C13 through Append with events stamped by another clock (frozen 2 h behind, 90 min ahead): placement and
+	// names follow the clock that stamps the files
+	for _, sk := range []time.Duration{-2 * time.Hour, 90 * time.Minute} {
+		reg("C13", rollCfg{writers: [][]string{{"a0", "a1", "a2"}}, skew: sk}, "qt", bb{1, 3, 0}, bb{2, 3, 0})
+		reg("C13", rollCfg{writers: [][]string{{"a0", "a1"}, {"b0", "b1"}}, skew: sk}, "qt", bb{1, 2, 0}, bb{2, 2, 0})
+	}
 	// C13 with failing file creations (and nothing else failing): every write still lands exactly once
 	reg("C13", rollCfg{writers: [][]string{{"a0", "a1", "a2", "a3"}}, openOnly: true, variant: "failed-creations"}, "qt", bb{1, 3, 2}, bb{2, 3, 3})
 	reg("C13", rollCfg{writers: [][]string{{"a0", "a1"}, {"b0", "b1"}}, openOnly: true, variant: "failed-creations"}, "qt", bb{1, 2, 2}, bb{2, 3, 2})
